@@ -143,7 +143,9 @@ func analyseGenTableCells(c *Ctx, f *FuncRef) genTableCells {
 		// row := make([]int, len(G.Symbols))
 		if as, ok := s.(*ast.AssignStmt); ok && len(as.Rhs) == 1 {
 			if call, ok := as.Rhs[0].(*ast.CallExpr); ok && builtinName(info, call) == "make" && len(call.Args) >= 2 {
-				pc := &pathCtx{info: info}
+				defs := newDefs(info)
+				defs.scan(f.Decl.Body)
+				pc := &pathCtx{info: info, defs: defs, root: f.Decl.Body}
 				if strings.HasSuffix(pc.path(call.Args[1]), ".G.Symbols)") && strings.HasPrefix(pc.path(call.Args[1]), "len(") {
 					res.rowLenIsSymbols = true
 				}
